@@ -366,6 +366,27 @@ def o98(ctx):
         if not any(c_.endswith("one_value_per_line_read") for c_ in calls_) or bad_thin or sorts != (1 if srt else 0):
             ctx.finding(q, f"file input, sort_angles={srt}", f"tlt_load(file, sort_angles={srt}) must return every value of the file"
                         f"{', sorted ascending' if srt else ' in file order'} (repeated angles kept); it returns {tm.show(t)[:100]}", fn, m)
+    # the file reader behind both loaders: every line of the file is a value (no header line, nothing skipped), first column, file order
+    q1 = "ioutils.one_value_per_line_read"
+    m1, fn1 = ctx.prog.func(q1)
+    ctx.touched(q1)
+    it = Interp(ctx.prog, assume=assume_map({"not os.path.isfile(file_path)": False, "data_df.empty": False}))
+    r = it.run(q1, [K("series_017.tlt")], {})
+    rc_ = [e for e in it.events if e.kind == "call" and e.name in ("pandas.read_csv", "pandas.read_table", "numpy.loadtxt", "numpy.genfromtxt")]
+    ctx.count(1, {"value file reader": [(e.name, {k: tm.show(to_term(v))[:30] for k, v in e.kwargs.items()}) for e in rc_]})
+    if len(rc_) != 1:
+        raise Unsupported("file reading call of one_value_per_line_read not recognised", fn1)
+    e = rc_[0]
+    if e.name.startswith("pandas."):
+        hdr = e.kwargs.get("header")
+        if hdr is None or not (is_pyconst(hdr) and pyval(hdr) is None):
+            ctx.finding(q1, e.node, "the value file has no header line: it must be read with header=None on every path, otherwise its first value is "
+                        f"taken for a column title and lost (header={tm.show(to_term(hdr)) if hdr is not None else 'default (first line)'})", e.node, m1)
+    for kw in ("skiprows", "skipfooter", "nrows", "max_rows", "usecols"):
+        v_ = e.kwargs.get(kw)
+        ctx.count(1)
+        if v_ is not None and not (is_pyconst(v_) and pyval(v_) in (0, None)):
+            ctx.finding(q1, e.node, f"every line of the value file is a value: {kw}={tm.show(to_term(v_))[:40]} drops some", e.node, m1)
     q2 = "ioutils.total_dose_load"
     m2, fn2 = ctx.prog.func(q2)
     ctx.touched(q2)
